@@ -192,8 +192,15 @@ func (c13) Generate(seed uint64, tier string, index int) any {
 			names = append(names, rel, rel)
 		}
 	}
+	var dirOnly []string
 	for b, d := range isDirOnly {
-		if d && g.R.Intn(2) == 0 {
+		if d {
+			dirOnly = append(dirOnly, b)
+		}
+	}
+	sort.Strings(dirOnly) // (map order must not decide which name gets which draw)
+	for _, b := range dirOnly {
+		if g.R.Intn(2) == 0 {
 			names = append(names, b+"/") // directory-only rule for a name only directories bear
 		}
 	}
